@@ -1,6 +1,6 @@
 (** C09 — balance check at graph level: [balancedb] answers true exactly when every element count (implicit
     hydrogens counted as H atoms) and the total charge agree on both sides. *)
-From Coq Require Import List NArith ZArith Bool Lia.
+From Coq Require Import List NArith ZArith Bool Lia Permutation.
 From SK Require Import lib.LGraph model.C01_Model model.C09_Model.
 Import ListNotations.
 Local Open Scope Z_scope.
@@ -50,3 +50,34 @@ Proof. vm_compute. auto. Qed.
 Example ex_unbalanced_charge : balancedb ex_bal_G (LG (gnodes ex_bal_H') []) = true /\
   balancedb ex_bal_G (LG [(2%N, GN 82%N false 0 (-1) None 2)] []) = false.
 Proof. vm_compute. auto. Qed.
+
+(** dicts_balance_check: nothing is lost or duplicated, and a record lands in the balanced list exactly when its counts
+    and charge agree *)
+Lemma filter_split_perm {X} (f : X -> bool) (l : list X) : Permutation (filter f l ++ filter (fun x => negb (f x)) l) l.
+Proof.
+  induction l as [|x l IH]; simpl; [constructor|]. destruct (f x); simpl.
+  - apply perm_skip. exact IH.
+  - eapply Permutation_trans; [apply Permutation_sym; apply Permutation_middle|]. apply perm_skip. exact IH.
+Qed.
+Theorem balance_partition_spec {X} (rs : list (X * (mgraph * mgraph))) :
+  Permutation (fst (balance_partition rs) ++ snd (balance_partition rs)) (map fst rs) /\
+  (forall x, In x (fst (balance_partition rs)) <->
+     exists G H, In (x, (G, H)) rs /\ (forall e, el_count e G = el_count e H) /\ total_charge G = total_charge H) /\
+  (forall x, In x (snd (balance_partition rs)) <->
+     exists G H, In (x, (G, H)) rs /\ ~ ((forall e, el_count e G = el_count e H) /\ total_charge G = total_charge H)).
+Proof.
+  unfold balance_partition. simpl. split; [|split].
+  - rewrite <- map_app. apply Permutation_map. apply filter_split_perm.
+  - intros x. rewrite in_map_iff. split.
+    + intros ([y [G H]] & <- & I). apply filter_In in I. destruct I as [I B]. exists G, H. split; [exact I|]. apply balance_iff. exact B.
+    + intros (G & H & I & B). exists (x, (G, H)). split; [reflexivity|]. apply filter_In. split; [exact I|]. apply balance_iff. exact B.
+  - intros x. rewrite in_map_iff. split.
+    + intros ([y [G H]] & <- & I). apply filter_In in I. destruct I as [I B]. exists G, H. split; [exact I|].
+      intros C. apply balance_iff in C. unfold bal_of in B. simpl in B. rewrite C in B. discriminate.
+    + intros (G & H & I & B). exists (x, (G, H)). split; [reflexivity|]. apply filter_In. split; [exact I|].
+      unfold bal_of. simpl. destruct (balancedb G H) eqn:E; [|reflexivity]. exfalso. apply B. apply balance_iff. exact E.
+Qed.
+Example ex_partition :
+  balance_partition [(0%nat, (ex_bal_G, ex_bal_H)); (1%nat, (ex_bal_G, LG [(2%N, GN 82%N false 0 (-1) None 2)] [])); (2%nat, (ex_bal_H, ex_bal_G))]
+  = ([0%nat; 2%nat], [1%nat]).
+Proof. vm_compute. reflexivity. Qed.
